@@ -59,6 +59,18 @@ pub struct Scenario {
     /// initial length of each file
     pub files: Vec<u32>,
     pub ops: Vec<Op>,
+    /// Some: run the Push ops of ring 0 (read/write/fsync on file 0) as a host program inside a
+    /// turmoil::Sim, reaping through AsyncFd::readable loops; crash the host before this step (0 = never)
+    #[serde(default)]
+    pub in_sim: Option<InSim>,
+}
+
+#[derive(Clone, Debug, Serialize, Deserialize)]
+pub struct InSim {
+    pub tick_ms: u64,
+    /// ops per submit batch
+    pub batch: u32,
+    pub crash_before_step: u32,
 }
 
 pub struct C18;
@@ -189,6 +201,7 @@ impl Property for C18 {
             ring_entries: (0..nr).map(|_| rng.range(1, 8) as u32).collect(),
             files: (0..nf).map(|_| rng.range(0, 40) as u32).collect(),
             ops,
+            in_sim: None,
         }
     }
 
@@ -204,13 +217,24 @@ impl Property for C18 {
             c.ops.push(Op::Submit { ring: 0 });
             v.push(c);
         }
+        // the same workload as a host program inside a running simulation (AsyncFd::readable drain
+        // loops, Sim::crash + Sim::bounce at a few step indices)
+        let pushes = base.ops.iter().filter(|o| matches!(o, Op::Push { kind: SqeKind::Read { .. } | SqeKind::Write { .. } | SqeKind::Fsync { .. }, bad_flags: false, .. })).count();
+        if pushes >= 2 {
+            let tick_ms = 1 + base.fs_seed % 3;
+            for crash in [0u32, 2, 3, 5, 9] {
+                let mut c = base.clone();
+                c.in_sim = Some(InSim { tick_ms, batch: 1 + (base.fs_seed >> 8) as u32 % 4, crash_before_step: crash });
+                v.push(c);
+            }
+        }
         v
     }
 
     fn run(sc: &Scenario, keep: bool) -> Report {
         let mut log = Log::new(keep);
         let mut rep = Report::default();
-        let r = catch(|| run_inner(sc, &mut log, &mut rep));
+        let r = catch(|| if sc.in_sim.is_some() { run_in_sim(sc, &mut log, &mut rep) } else { run_inner(sc, &mut log, &mut rep) });
         let violation = match r {
             Ok(v) => v,
             Err(p) => Some(Violation::new("Panic", format!("panic in turmoil-io-uring / turmoil-fs: {p}"))),
@@ -228,6 +252,14 @@ impl Property for C18 {
         if sc.page_cache {
             out.push(Scenario { page_cache: false, ..sc.clone() });
         }
+        if let Some(i) = &sc.in_sim {
+            if i.crash_before_step != 0 {
+                out.push(Scenario { in_sim: Some(InSim { crash_before_step: 0, ..i.clone() }), ..sc.clone() });
+            }
+            if i.batch > 1 {
+                out.push(Scenario { in_sim: Some(InSim { batch: 1, ..i.clone() }), ..sc.clone() });
+            }
+        }
         if sc.lat_max_ns != sc.lat_min_ns {
             out.push(Scenario { lat_max_ns: sc.lat_min_ns, ..sc.clone() });
         }
@@ -238,7 +270,8 @@ impl Property for C18 {
     }
 
     fn signature(sc: &Scenario) -> String {
-        sc.ops
+        let pre = if let Some(i) = &sc.in_sim { format!("SIM(crash@{},batch{}) ", i.crash_before_step, i.batch) } else { String::new() };
+        pre + &sc.ops
             .iter()
             .map(|o| match o {
                 Op::Push { kind, bad_flags, .. } => format!("push-{}{}", kind_name(kind), if *bad_flags { "!" } else { "" }),
@@ -664,5 +697,266 @@ fn run_inner(sc: &Scenario, log: &mut Log, rep: &mut Report) -> Option<Violation
         rep.probes.inc("three_or_more_ops_in_flight");
     }
     rep.sim_ms = (w.now.as_millis() as u64).saturating_sub(1_000_000);
+    None
+}
+
+// ---- in-Sim driver: AsyncFd::readable drain loops, Sim::crash / Sim::bounce ---------------------------
+
+#[derive(Clone, Debug)]
+enum SimEv {
+    Submitted { uds: Vec<u64>, at_us: u64 },
+    Cqe { ud: u64, result: i32, at_us: u64, data: Vec<u8> },
+    /// a restarted incarnation: completions visible on a fresh ring after waiting, file content
+    Restarted { stale_cqes: usize, content: Option<Vec<u8>> },
+    Finished { content: Option<Vec<u8>> },
+    Error(String),
+}
+
+struct RingFd(std::os::fd::RawFd);
+impl std::os::fd::AsRawFd for RingFd {
+    fn as_raw_fd(&self) -> std::os::fd::RawFd {
+        self.0
+    }
+}
+
+fn run_in_sim(sc: &Scenario, log: &mut Log, rep: &mut Report) -> Option<Violation> {
+    use std::cell::{Cell, RefCell};
+    use std::rc::Rc;
+    let ins = sc.in_sim.clone().unwrap();
+    let tick_us = ins.tick_ms * 1000;
+    let pushes: Vec<(u64, SqeKind)> = sc
+        .ops
+        .iter()
+        .filter_map(|o| match o {
+            Op::Push { ud, kind: k @ (SqeKind::Read { .. } | SqeKind::Write { .. } | SqeKind::Fsync { .. }), bad_flags: false, .. } => Some((*ud, k.clone())),
+            _ => None,
+        })
+        .collect();
+    let init = pattern(1000, sc.files[0]);
+    let events: Rc<RefCell<Vec<SimEv>>> = Rc::new(RefCell::new(Vec::new()));
+    let inc = Rc::new(Cell::new(0u32));
+    let lat_max = sc.lat_max_ns;
+
+    let mut b = turmoil::Builder::new();
+    b.rng_seed(sc.fs_seed).epoch(std::time::UNIX_EPOCH + Duration::from_secs(1_500_000_000)).tick_duration(Duration::from_millis(ins.tick_ms));
+    {
+        let f = b.fs();
+        if sc.lat_max_ns > 0 {
+            f.io_latency().min_latency(Duration::from_nanos(sc.lat_min_ns)).max_latency(Duration::from_nanos(sc.lat_max_ns));
+        }
+        if sc.page_cache {
+            f.page_cache();
+        }
+    }
+    let mut sim = b.build();
+    {
+        let events = events.clone();
+        let inc = inc.clone();
+        let pushes = pushes.clone();
+        let init = init.clone();
+        let batch = ins.batch.max(1) as usize;
+        sim.host("h", move || {
+            let events = events.clone();
+            inc.set(inc.get() + 1);
+            let k = inc.get();
+            let pushes = pushes.clone();
+            let init = init.clone();
+            async move {
+                use turmoil::io_uring::{AsyncFd, IoUring as SimRing};
+                let r: Result<(), String> = async {
+                    let mut ring = SimRing::new(8).map_err(|e| e.to_string())?;
+                    if k > 1 {
+                        // restarted: nothing submitted before the crash may complete or take effect
+                        tokio::time::sleep(Duration::from_nanos(lat_max) + Duration::from_millis(5)).await;
+                        let stale = {
+                            let mut cq = ring.completion();
+                            cq.sync();
+                            cq.len()
+                        };
+                        events.borrow_mut().push(SimEv::Restarted { stale_cqes: stale, content: sfs::read("/f0").ok() });
+                        return Ok(());
+                    }
+                    let file = sfs::OpenOptions::new().read(true).write(true).create(true).open("/f0").map_err(|e| e.to_string())?;
+                    file.write_at(&init, 0).map_err(|e| e.to_string())?;
+                    file.sync_all().map_err(|e| e.to_string())?;
+                    sfs::sync_dir("/").map_err(|e| e.to_string())?;
+                    let fd = types::Fd(file.as_raw_fd());
+                    let afd = AsyncFd::new(RingFd(std::os::fd::AsRawFd::as_raw_fd(&ring))).map_err(|e| e.to_string())?;
+                    for chunk in pushes.chunks(batch) {
+                        let mut bufs: Vec<Vec<u8>> = Vec::new();
+                        for (_, kind) in chunk {
+                            bufs.push(match kind {
+                                SqeKind::Read { len, .. } => vec![SENTINEL; *len as usize],
+                                SqeKind::Write { len, tag, .. } => pattern(*tag, *len),
+                                _ => Vec::new(),
+                            });
+                        }
+                        for (i, (ud, kind)) in chunk.iter().enumerate() {
+                            let e = match kind {
+                                SqeKind::Read { off, len, .. } => opcode::Read::new(fd, bufs[i].as_mut_ptr(), *len).offset(*off).build(),
+                                SqeKind::Write { off, len, .. } => opcode::Write::new(fd, bufs[i].as_ptr(), *len).offset(*off).build(),
+                                _ => opcode::Fsync::new(fd).build(),
+                            }
+                            .user_data(*ud);
+                            unsafe { ring.submission().push(&e).map_err(|e| e.to_string())? };
+                        }
+                        ring.submit().map_err(|e| e.to_string())?;
+                        events.borrow_mut().push(SimEv::Submitted { uds: chunk.iter().map(|c| c.0).collect(), at_us: turmoil::elapsed().as_micros() as u64 });
+                        let mut got = 0;
+                        while got < chunk.len() {
+                            let _g = afd.readable().await.map_err(|e| e.to_string())?;
+                            let mut cq = ring.completion();
+                            cq.sync();
+                            for c in &mut cq {
+                                let idx = chunk.iter().position(|x| x.0 == c.user_data());
+                                let data = match idx {
+                                    Some(i) if matches!(chunk[i].1, SqeKind::Read { .. }) => bufs[i].clone(),
+                                    _ => Vec::new(),
+                                };
+                                events.borrow_mut().push(SimEv::Cqe { ud: c.user_data(), result: c.result(), at_us: turmoil::elapsed().as_micros() as u64, data });
+                                got += 1;
+                            }
+                        }
+                    }
+                    events.borrow_mut().push(SimEv::Finished { content: sfs::read("/f0").ok() });
+                    drop(afd);
+                    drop(ring);
+                    drop(file);
+                    Ok(())
+                }
+                .await;
+                if let Err(e) = r {
+                    events.borrow_mut().push(SimEv::Error(e));
+                }
+                std::future::pending::<()>().await;
+                Ok(())
+            }
+        });
+    }
+    let max_steps = 40 + (pushes.len() as u64 * (sc.lat_max_ns / 1000 + 2 * tick_us) / tick_us) as u32 + ((sc.lat_max_ns / 1000 + 6000) / tick_us) as u32;
+    let mut crashed = false;
+    for s in 1..=max_steps {
+        if ins.crash_before_step == s {
+            sim.crash("h");
+            sim.bounce("h");
+            crashed = true;
+            rep.faults.inc("sim_crash_bounce");
+            events.borrow_mut().push(SimEv::Error("__crash__".into()));
+        }
+        if let Err(e) = sim.step() {
+            return Some(Violation::new("SimError", format!("in-Sim: step {s} failed: {e}")));
+        }
+        let done = events.borrow().iter().any(|e| matches!(e, SimEv::Finished { .. } | SimEv::Restarted { .. }));
+        if done {
+            break;
+        }
+    }
+    drop(sim);
+    // ---- judge
+    let mut model = Model::new();
+    let flags = OpenFlags { read: true, write: true, create: true, ..Default::default() };
+    model.open(0, "/f0", &flags);
+    model.write_at(0, 0, &init);
+    model.sync_file(0);
+    model.sync_dir("/");
+    let mut outstanding: Vec<(u64, u64)> = Vec::new(); // (ud, submit time)
+    let mut finished = false;
+    let evs = events.borrow().clone();
+    for (i, ev) in evs.iter().enumerate() {
+        match ev {
+            SimEv::Submitted { uds, at_us } => {
+                log.ev(format!("sim submit {:?} at {at_us}us", uds));
+                for u in uds {
+                    outstanding.push((*u, *at_us));
+                }
+            }
+            SimEv::Cqe { ud, result, at_us, data } => {
+                log.ev(format!("sim cqe ud={ud} result={result} at {at_us}us"));
+                log.tag("cqe");
+                let Some(pos) = outstanding.iter().position(|o| o.0 == *ud) else {
+                    return Some(Violation::new("UnknownOrDuplicateCqe", format!("in-Sim event {i}: CQE ud={ud} matches no outstanding submission")));
+                };
+                let (_, t0) = outstanding.remove(pos);
+                let kind = &pushes.iter().find(|p| p.0 == *ud).unwrap().1;
+                let min_us = match kind {
+                    SqeKind::Read { .. } if sc.page_cache => 0,
+                    _ => sc.lat_min_ns / 1000,
+                };
+                if at_us + tick_us < t0 + min_us {
+                    return Some(Violation::new("CompletionEarly", format!("in-Sim: CQE ud={ud} reaped at {at_us}us, submitted at {t0}us with min latency {min_us}us (tick {tick_us}us)")));
+                }
+                let max_us = sc.lat_max_ns.max(sc.lat_min_ns) / 1000 + 1;
+                if *at_us > t0 + max_us + 3 * tick_us {
+                    return Some(Violation::new("CompletionLate", format!("in-Sim: CQE ud={ud} reaped through AsyncFd::readable at {at_us}us, submitted at {t0}us with max latency {max_us}us (tick {tick_us}us)")));
+                }
+                let expected = match kind {
+                    SqeKind::Read { off, len, .. } => match model.read_at(0, *off, *len as usize) {
+                        Obs::Bytes(bts) => {
+                            let n = bts.len();
+                            if *result == n as i32 && (data[..n] != bts[..] || data[n..].iter().any(|x| *x != SENTINEL)) {
+                                return Some(Violation::new("ReadData", format!("in-Sim: read ud={ud} returned {:?}, the model holds {:?}", &data[..n.min(16)], &bts[..n.min(16)])));
+                            }
+                            n as i32
+                        }
+                        _ => unreachable!(),
+                    },
+                    SqeKind::Write { off, len, tag, .. } => {
+                        model.write_at(0, *off, &pattern(*tag, *len));
+                        *len as i32
+                    }
+                    SqeKind::Fsync { .. } => {
+                        model.sync_file(0);
+                        0
+                    }
+                    SqeKind::Cancel { .. } => unreachable!(),
+                };
+                if *result != expected {
+                    return Some(Violation::new("CqeResult", format!("in-Sim: CQE ud={ud} ({:?}) result {result}, the reference says {expected}", kind)));
+                }
+            }
+            SimEv::Error(e) if e == "__crash__" => {
+                model.crash();
+                if !outstanding.is_empty() {
+                    rep.faults.inc("sim_crash_with_ops_in_flight");
+                }
+                outstanding.clear();
+                log.ev("sim CRASH + bounce");
+                log.tag("crash");
+            }
+            SimEv::Error(e) => return Some(Violation::new("SimError", format!("in-Sim host program failed: {e}"))),
+            SimEv::Restarted { stale_cqes, content } => {
+                log.ev(format!("sim restarted: stale={stale_cqes} content={:?}", content.as_ref().map(|c| c.len())));
+                if *stale_cqes != 0 {
+                    return Some(Violation::new("CompletionAfterCrash", format!("in-Sim: the restarted host sees {stale_cqes} completions on a fresh ring")));
+                }
+                let exp = match model.read_whole("/f0") {
+                    Obs::Bytes(b) => Some(b),
+                    _ => None,
+                };
+                if *content != exp {
+                    return Some(Violation::new("EffectAfterCrash", format!("in-Sim: after Sim::crash + bounce /f0 holds {:?}, its durable image is {:?}", content.as_ref().map(|b| &b[..b.len().min(24)]), exp.as_ref().map(|b| &b[..b.len().min(24)]))));
+                }
+                finished = true;
+            }
+            SimEv::Finished { content } => {
+                let exp = match model.read_whole("/f0") {
+                    Obs::Bytes(b) => Some(b),
+                    _ => None,
+                };
+                if *content != exp {
+                    return Some(Violation::new("FinalContent", format!("in-Sim: /f0 reads {:?}, the reference holds {:?}", content.as_ref().map(|b| &b[..b.len().min(24)]), exp.as_ref().map(|b| &b[..b.len().min(24)]))));
+                }
+                if !outstanding.is_empty() {
+                    return Some(Violation::new("LostCompletion", format!("in-Sim: program finished with {} submissions never completed", outstanding.len())));
+                }
+                finished = true;
+            }
+        }
+    }
+    if !finished {
+        return Some(Violation::new("LostCompletion", format!("in-Sim: the host program did not finish reaping its {} submissions within {max_steps} steps (AsyncFd::readable never resolved?)", pushes.len())));
+    }
+    rep.probes.inc("in_sim_asyncfd_run");
+    rep.nontrivial = pushes.len() >= 3 && crashed;
     None
 }
